@@ -92,6 +92,9 @@ func (s *ServerStreamForClient[Res]) Receive() bool {
 	if s.constructErr != nil || s.receiveErr != nil {
 		return false
 	}
+	// A zero-length message leaves the target untouched, so don't let the
+	// previous message's fields show through.
+	s.msg = *new(Res)
 	s.receiveErr = s.conn.Receive(&s.msg)
 	return s.receiveErr == nil
 }
